@@ -372,9 +372,14 @@ pub fn run(ctx: &mut Ctx) {
         let mut rng = ctx.case_rng("hayson", i);
         let m = gen_value(&mut rng, 3);
         let v = to_value_with(&m, rng.next_u64());
-        let text = match serde_json::to_string(&v) {
-            Ok(t) => t,
-            Err(_) => continue,
+        // base document: the library's own spelling, or the reference writer's (member orders, escapes, spellings)
+        let text = if rng.coin() {
+            crate::refjson::write_hayson(&mut rng, &m, true).0
+        } else {
+            match serde_json::to_string(&v) {
+                Ok(t) => t,
+                Err(_) => continue,
+            }
         };
         if text.len() > 4096 {
             continue;
